@@ -160,7 +160,8 @@ func typeName(pkg *packages.Package, imports util.ImportNames, t types.Type) str
 // If the types.Var doesn't have a name, defName is used instead.
 func (p *FunctionBuilder) createVar(v *types.Var, defName string) gmodel.Var {
 	name := v.Name()
-	if name == "" {
+	if name == "" || name == "_" {
+		// A blank parameter cannot be referred to, e.g. passed on to a hook.
 		name = defName
 	}
 
